@@ -21,6 +21,17 @@ def hexDigit (n : Nat) : Char := if n < 10 then Char.ofNat (48 + n) else Char.of
 def hex (b : Bytes) : String :=
   String.ofList (b.flatMap fun x => [hexDigit (x.toNat / 16), hexDigit (x.toNat % 16)])
 
+/-- lower-case hex digits as bytes (ASCII) -/
+def hexDigitByte (n : Nat) : UInt8 := if n < 10 then UInt8.ofNat (48 + n) else UInt8.ofNat (87 + n)
+
+/-- hex encoding as a byte string -/
+def hexBytes (b : Bytes) : Bytes := b.flatMap fun x => [hexDigitByte (x.toNat / 16), hexDigitByte (x.toNat % 16)]
+
+theorem hexBytes_length (b : Bytes) : (hexBytes b).length = 2 * b.length := by
+  induction b with
+  | nil => rfl
+  | cons x r ih => simp only [hexBytes, List.flatMap_cons, List.length_append, List.length_cons, List.length_nil] at ih ⊢; omega
+
 def unhexDigit (c : Char) : Option Nat :=
   if '0' ≤ c ∧ c ≤ '9' then some (c.toNat - 48)
   else if 'a' ≤ c ∧ c ≤ 'f' then some (c.toNat - 87)
